@@ -165,3 +165,51 @@ func c19DNSTTLCLI(idx int, rng *rand.Rand) []Case {
 	c.Sample = map[string]interface{}{"args": args, "results": len(rs), "ok": okc, "lookups_seen_by_name_server": queries, "stderr": clipStr(stderr.String(), 200)}
 	return []Case{c}
 }
+
+
+// -connect-to through the command, with the other dial-related flags around it: every request
+// for the mapped address must be answered by a replacement
+func c19ConnectToCLI(idx int, rng *rand.Rand) []Case {
+	var hits int64
+	srv := httptest.NewServer(http.HandlerFunc(func(w http.ResponseWriter, r *http.Request) {
+		atomic.AddInt64(&hits, 1)
+		w.Write([]byte("ok"))
+	}))
+	defer srv.Close()
+	repl := strings.TrimPrefix(srv.URL, "http://")
+	keepalive := rng.Intn(2) == 0
+	ttl := []string{"", "-1", "0", "30s"}[rng.Intn(4)]
+	out := filepath.Join(scratchDir(), fmt.Sprintf("c19ct%d.bin", idx))
+	defer os.Remove(out)
+	fl := [][]string{{"-rate", "40"}, {"-duration", "400ms"}, {"-output", out}, {"-timeout", "5s"},
+		{fmt.Sprintf("-keepalive=%v", keepalive)}, {"-connect-to", "mapped.invalid:80:" + repl}}
+	if ttl != "" {
+		fl = append(fl, []string{"-dns-ttl=" + ttl})
+	}
+	rng.Shuffle(len(fl), func(i, j int) { fl[i], fl[j] = fl[j], fl[i] })
+	args := []string{"attack"}
+	for _, f := range fl {
+		args = append(args, f...)
+	}
+	cmd := exec.Command(os.Getenv("VERIF_VEGETA"), args...)
+	cmd.Stdin = strings.NewReader("GET http://mapped.invalid/\n")
+	runErr := cmd.Run()
+	b, _ := os.ReadFile(out)
+	rs, _ := decodeAll(vegeta.NewDecoder(bytes.NewReader(b)), 1<<20)
+	okc := 0
+	for _, r := range rs {
+		if r.Code == 200 && r.Error == "" {
+			okc++
+		}
+	}
+	var c Case
+	w := &c.W
+	w.Z(9)
+	w.Bool(runErr == nil)
+	w.I(len(rs)); w.I(okc)
+	w.Z(atomic.LoadInt64(&hits))
+	c.Tag = "cli.connectto;nt"
+	c.Dist = fmt.Sprintf("cli/connect-to/keepalive=%v/dns-ttl=%s", keepalive, ttl)
+	c.Sample = map[string]interface{}{"args": args, "results": len(rs), "ok": okc, "served_by_replacement": hits}
+	return []Case{c}
+}
